@@ -96,5 +96,6 @@ def run(chk, prog, tier):
     join_common.check_trie_cache(chk, prog)
     join_common.check_root_headers(chk, prog)
     join_common.check_atom_lowering(chk, prog)
-    from . import scan_common
+    from . import scan_common, c06
+    c06.check_ruleset_siblings(chk, prog)
     scan_common.check_scan_batches(chk, prog, only=lambda f: "free_join::execute" in f.name, floor=3)
